@@ -42,5 +42,8 @@ build || exit 2
 if [ "$mode" = replay ]; then
   "$SCR/b/vcheck" -replay "$arg"; exit $?
 fi
+if [ "$mode" = trace ]; then
+  shift; "$SCR/b/vcheck" "$@"; exit $?
+fi
 "$SCR/b/vcheck" -prop "$mode" -tier "$arg"
 exit $?
